@@ -231,6 +231,8 @@ impl VariableMap for TransformerContext {
     }
 
     fn get_rng(&self) -> &RefCell<Pcg32> {
+        #[cfg(feature = "verif")]
+        crate::verif::rng_draw("rng");
         &self.rng
     }
 }
@@ -252,6 +254,8 @@ impl TransformerContext {
     }
 
     pub fn set_config(&mut self, config: TransformConfig) {
+        #[cfg(feature = "verif")]
+        crate::verif::config(&config);
         self.seed_rng(config.seed);
         if config.use_local_styles {
             // randomise the local id to avoid conflicts with other SVG
@@ -287,6 +291,8 @@ impl TransformerContext {
         if self.scope_stack.is_empty() {
             let scope = Scope::default();
             self.scope_stack.push(scope);
+            #[cfg(feature = "verif")]
+            crate::verif::scope_changed("ensure", self.scope_stack.len(), self.element_stack.len());
         }
 
         self.scope_stack
@@ -371,6 +377,8 @@ impl TransformerContext {
     pub fn set_var(&mut self, name: &str, value: &str) {
         let scope = self.ensure_scope();
         scope.vars.insert(name.into(), value.into());
+        #[cfg(feature = "verif")]
+        crate::verif::set_var(name, self.scope_stack.len());
     }
 
     pub fn push_element(&mut self, el: &SvgElement) {
@@ -378,15 +386,25 @@ impl TransformerContext {
         self.element_stack.push(el.clone());
         let scope = Scope::with_vars(attrs);
         self.scope_stack.push(scope);
+        #[cfg(feature = "verif")]
+        crate::verif::scope_changed("push", self.scope_stack.len(), self.element_stack.len());
     }
 
     pub fn pop_element(&mut self) -> Option<SvgElement> {
         self.scope_stack.pop();
+        #[cfg(feature = "verif")]
+        crate::verif::scope_changed(
+            "pop",
+            self.scope_stack.len(),
+            self.element_stack.len().saturating_sub(1),
+        );
         self.element_stack.pop()
     }
 
     pub fn inc_depth(&mut self) -> Result<()> {
         self.current_depth += 1;
+        #[cfg(feature = "verif")]
+        crate::verif::depth_changed(1, self.current_depth);
         if self.current_depth > self.config.depth_limit {
             return Err(SvgdxError::DepthLimitExceeded(
                 self.current_depth,
@@ -399,6 +417,8 @@ impl TransformerContext {
     pub fn dec_depth(&mut self) -> Result<()> {
         if self.current_depth > 0 {
             self.current_depth -= 1;
+            #[cfg(feature = "verif")]
+            crate::verif::depth_changed(-1, self.current_depth);
         } else {
             return Err(SvgdxError::from("Depth must be positive"));
         }
@@ -416,9 +436,32 @@ impl TransformerContext {
     pub fn update_element(&mut self, el: &SvgElement) {
         if let Some(id) = el.get_attr("id") {
             let id = eval_attr(&id, self).unwrap_or(id);
+            #[cfg(feature = "verif")]
+            crate::verif::registered(&id, !self.elem_map.contains_key(&id));
             if self.elem_map.insert(id.clone(), el.clone()).is_none() {
                 self.original_map.insert(id, el.clone());
             }
         }
+    }
+}
+
+#[cfg(feature = "verif")]
+impl TransformerContext {
+    /// End-of-transform probe of the bookkeeping state.
+    pub fn verif_probe(&self) -> crate::verif::Probe {
+        crate::verif::Probe {
+            depth: self.current_depth,
+            scopes: self.scope_stack.len(),
+            elstack: self.element_stack.len(),
+            in_specs: self.in_specs,
+            real_svg: self.real_svg,
+        }
+    }
+}
+
+#[cfg(feature = "verif")]
+impl Drop for TransformerContext {
+    fn drop(&mut self) {
+        crate::verif::probe(&self.verif_probe());
     }
 }
